@@ -15,9 +15,9 @@ harness refuses lines with empty columns or embedded blanks before they get here
   vcf.sum <nAlt> <gt>…         (gt = `0/1/.` tokens)                  → AC(,) AN UAN NS | error:IndexError
   vcf.rsum <ACP|AFP|AOP|SUM> <nAlt> <totalPloidy> <row>…  (row = `q,q,nan`) → values | error:ValueError
   vcf.str <s|a> <rat|nan>…                                            → vcfstr text
-  vcf.gsize <nAlt> <ploidy> <refCalled 0|1>                           → call size, assemble GP size
-  vcf.gparr <nAlt> <ploidy> <refCalled> <g>…  (g = `0/1/1`)           → length | error:IndexError
-  vcf.relabel <mask bits e.g. 0101>                                   → n_allele of `relabel`
+  vcf.gsize <nAlt> <ploidy> <refCalled 0|1>             → call size, assemble GP size (program), default-sized (len(labels))
+  vcf.gparr <prog|default> <nAlt> <ploidy> <refCalled> <g>…  (g = `0/1/1`)   → length | error:IndexError
+  vcf.relabel <prog|default> <mask bits e.g. 0101>                    → n_allele of `relabel`
 -/
 namespace Driver.C07
 
@@ -123,16 +123,24 @@ def handle : String → Handler
     | _, _ => none
   | "vcf.gsize", [nAlt, p, rc] => do
     let nAlt ← parseNat? nAlt; let p ← parseNat? p; let rc ← parseNat? rc
-    some s!"{callGArraySize nAlt p} {assembleGPSize nAlt (rc != 0) p}"
-  | "vcf.gparr", nAlt :: p :: rc :: gs => do
+    some s!"{callGArraySize nAlt p} {assembleGPSize nAlt (rc != 0) p} {gpArraySize (assembleNLabels nAlt (rc != 0)) none p}"
+  | "vcf.gparr", mode :: nAlt :: p :: rc :: gs => do
     let nAlt ← parseNat? nAlt; let p ← parseNat? p; let rc ← parseNat? rc
     let gs ← allSome (gs.map (fun g => parseNats? (g.splitOn "/")))
-    match assembleGPArray nAlt (rc != 0) p (gs.map (fun g => (g, (1 : Rat)))) with
+    let entries := gs.map (fun g => (g, (1 : Rat)))
+    let res ← match mode with
+      | "prog" => some (assembleGPArray nAlt (rc != 0) p entries)
+      | "default" => some (gpArrayFill (gpArraySize (assembleNLabels nAlt (rc != 0)) none p) entries)
+      | _ => none
+    match res with
     | none => some "error:IndexError"
     | some a => some (toString a.length)
-  | "vcf.relabel", [bits] => do
+  | "vcf.relabel", [mode, bits] => do
     let mask ← allSome (bits.toList.map (fun c => if c = '1' then some true else if c = '0' then some false else none))
-    some (toString (relabelNAllele (keptLabels mask)))
+    match mode with
+    | "prog" => some (toString (callRelabelNAllele mask))
+    | "default" => some (toString (relabelNAllele (keptLabels mask) none))
+    | _ => none
   | _, _ => none
 
 end Driver.C07
